@@ -139,6 +139,8 @@ structure Req where
   host : Str
   header : Hdr
   body : Str
+  /-- `req.Close` -/
+  close : Bool := false
   deriving DecidableEq, Repr
 
 /-- "GET" -/
@@ -159,21 +161,33 @@ def stripPrefix? : Str → Str → Option Str
 /-- '/', '?', '#' end the authority of a URL -/
 def isAuthEnd (c : Nat) : Bool := c == 47 || c == 63 || c == 35
 
-/-- (URL.Host, URL.RequestURI()) of net/url.Parse for the grammar of the tie:
-`[http://authority | https://authority] [/path] [?query]`, no fragment, no userinfo, valid escapes. -/
-def splitURL (u : Str) : Str × Str :=
+/-- authority and RequestURI of what follows `//` -/
+def splitAuth (r : Str) : Str × Str :=
+  let tail := r.dropWhile (fun c => !isAuthEnd c)
+  (r.takeWhile (fun c => !isAuthEnd c),
+    match tail with
+    | [] => [47]
+    | 63 :: _ => 47 :: tail
+    | _ => tail)
+
+/-- (URL.Host, URL.RequestURI()) for the grammar of the tie:
+`[http://authority | https://authority | //authority] [/path] [?query]`, no fragment, no userinfo, valid escapes.
+`via = false`: net/url.Parse (http.NewRequest: uri, uripost, http/json) — a leading `//` (not `///`) introduces an
+authority (RFC 3986 network-path reference); `via = true`: url.ParseRequestURI (http.ReadRequest: raw) — without a
+scheme everything is path. -/
+def splitURLv (via : Bool) (u : Str) : Str × Str :=
   let rest? := match stripPrefix? httpPfx u with
     | some r => some r
     | none => stripPrefix? httpsPfx u
   match rest? with
-  | none => ([], if u = [] then [47] else u)
-  | some r =>
-    let tail := r.dropWhile (fun c => !isAuthEnd c)
-    (r.takeWhile (fun c => !isAuthEnd c),
-      match tail with
-      | [] => [47]
-      | 63 :: _ => 47 :: tail
-      | _ => tail)
+  | some r => splitAuth r
+  | none =>
+    match u with
+    | 47 :: 47 :: r => if via || r.head? == some 47 then ([], u) else splitAuth r
+    | _ => ([], if u = [] then [47] else u)
+
+/-- net/url.Parse -/
+def splitURL (u : Str) : Str × Str := splitURLv false u
 
 /-- http.NewRequest(method, url, body): empty header, Host from the URL -/
 def newRequest (method url body : Str) : Req :=
@@ -221,16 +235,48 @@ def mergeJson (conf : Hdr) (lines : List (Str × Str)) : Hdr :=
 def commonOf (common : Hdr) (lines : List (Str × Str)) : Hdr :=
   lines.foldl (fun h kv => hset h kv.1 kv.2) common
 
-/-- http.ReadRequest for `method target HTTP/1.1`, header lines with token names, body delimited by
-Content-Length; followed by raw.DecodeRequest's `RequestURI = ""` (not observable). -/
-def readRequest (method target : Str) (lines : List (Str × Str)) (body : Str) : Req :=
+/-- "Connection" -/
+def connKey : Str := [67, 111, 110, 110, 101, 99, 116, 105, 111, 110]
+/-- "close" -/
+def closeTok : Str := [99, 108, 111, 115, 101]
+/-- "keep-alive" -/
+def keepAliveTok : Str := [107, 101, 101, 112, 45, 97, 108, 105, 118, 101]
+
+def lowerByte (c : Nat) : Nat := if isUpper c then c + 32 else c
+
+/-- a Connection value of the tie's grammar: one token (no list, no blanks) -/
+def simpleTok (v : Str) : Bool := v != [] && v.all isTokenByte
+
+/-- httpguts.HeaderValuesContainsToken(vs, tok) on single-token values: ASCII case-insensitive equality -/
+def hasTok (vs : List Str) (tok : Str) : Bool := vs.any fun v => v.map lowerByte == tok
+
+/-- net/http shouldClose(1, minor, header, false): what http.ReadRequest stores in `req.Close` -/
+def goShouldClose (minor : Nat) (conn : List Str) : Bool :=
+  if minor = 0 then hasTok conn closeTok || !hasTok conn keepAliveTok else hasTok conn closeTok
+
+/-- raw.DecodeRequest after http.ReadRequest, REPAIRED (fixes/C09-raw-http10-keepalive.diff): an HTTP/1.0 request line
+alone does not ask to close; an explicit `Connection: close` does, whatever the version -/
+def decodeClose (minor : Nat) (conn : List Str) : Bool :=
+  if minor = 0 then hasTok conn closeTok else goShouldClose minor conn
+
+/-- the unrepaired tree: `req.Close` as http.ReadRequest left it -/
+def decodeCloseOld (minor : Nat) (conn : List Str) : Bool := goShouldClose minor conn
+
+/-- http.ReadRequest for `method target HTTP/1.<minor>`, header lines with token names, body delimited by
+Content-Length; followed by raw.DecodeRequest's `RequestURI = ""` (not observable) and its `Close` rule. -/
+def readRequestWith (dc : Nat → List Str → Bool) (minor : Nat) (method target : Str) (lines : List (Str × Str))
+    (body : Str) : Req :=
   let hdr : Hdr := lines.foldl (fun h kv => hadd h kv.1 (trimHTTP kv.2)) []
-  let uh := (splitURL target).1
-  { method := method, uri := (splitURL target).2
+  let uh := (splitURLv true target).1
+  { method := method, uri := (splitURLv true target).2
     host := if uh ≠ [] then uh else match hget hdr hostKey with
       | some (v :: _) => v
       | _ => []
-    header := hdel hdr hostKey, body := body }
+    header := hdel hdr hostKey, body := body
+    close := dc minor ((hget hdr connKey).getD []) }
+
+def readRequest (minor : Nat) (method target : Str) (lines : List (Str × Str)) (body : Str) : Req :=
+  readRequestWith decodeClose minor method target lines body
 
 inductive Format where
   | uri | uripost | jsonline | jsonarr | raw
@@ -243,8 +289,12 @@ structure Entry where
   /-- jsonline `host` field; unused by the other formats -/
   host : Str
   body : Str
+  /-- raw: minor version of the request line, `HTTP/1.<minor>` -/
+  minor : Nat := 1
   deriving DecidableEq, Repr
 
+/-- does the format read its request target with url.ParseRequestURI (raw) rather than url.Parse -/
+def viaOf (f : Format) : Bool := f = .raw
 
 /-- the URL handed to `Ammo.Setup` / the request target -/
 def urlOf (f : Format) (e : Entry) : Str :=
@@ -272,7 +322,7 @@ def buildReq (f : Format) (conf : Hdr) (lines : List (Str × Str)) (e : Entry) :
   | .uri => buildAmmo GET e.uri [] (mergeUri (commonOf [] lines) conf)
   | .uripost => buildAmmo POST e.uri e.body (mergeUri (commonOf [] lines) conf)
   | .jsonline | .jsonarr => buildAmmo e.method (httpPfx ++ e.host ++ e.uri) e.body (mergeJson conf lines)
-  | .raw => enrich (readRequest e.method e.uri lines e.body) conf
+  | .raw => enrich (readRequest e.minor e.method e.uri lines e.body) conf
 
 /-! ## BaseGun.Shoot -/
 
@@ -298,29 +348,44 @@ structure Shot where
   host : Str
   header : Hdr
   body : Str
+  /-- `req.wantsClose()`: the transport will not reuse the connection after this request -/
+  close : Bool := false
   deriving DecidableEq, Repr
+
+/-- the connection is not reused after this request: `req.wantsClose()` (`r.Close`, or `close` in the first
+Connection value) on the client side, or the target closing because ANY Connection value it received says `close`
+(every value is written to the wire) -/
+def wantsClose (r : Req) : Bool :=
+  r.close || hasTok ((hget r.header connKey).getD []) closeTok
 
 def splitLast (s : Str) (sep : Nat) : Option (Str × Str) :=
   match cut s.reverse sep with
   | some (b, a) => some (a.reverse, b.reverse)
   | none => none
 
-/-- client.go getHostWithoutPort = net.SplitHostPort's host, the whole target when that fails -/
-def hostWithoutPort (t : Str) : Str :=
+/-- the host of net.SplitHostPort(t); `none` when it fails (no port, stray colons or brackets) -/
+def splitHostPort? (t : Str) : Option Str :=
   match splitLast t 58 with
-  | none => t
+  | none => none
   | some (h, _) =>
     match h with
     | 91 :: inner =>
-      if inner.getLast? = some 93 ∧ ¬ (inner.dropLast.contains 91 ∨ inner.dropLast.contains 93) then inner.dropLast else t
-    | _ => if h.contains 58 ∨ h.contains 91 ∨ h.contains 93 then t else h
+      if inner.getLast? = some 93 ∧ ¬ (inner.dropLast.contains 91 ∨ inner.dropLast.contains 93) then some inner.dropLast
+      else none
+    | _ => if h.contains 58 ∨ h.contains 91 ∨ h.contains 93 then none else some h
+
+/-- client.go getHostWithoutPort = net.SplitHostPort's host, the whole target when that fails -/
+def hostWithoutPort (t : Str) : Str :=
+  match splitHostPort? t with
+  | some host => host
+  | none => t
 
 def shoot (g : Gun) (r : Req) : Shot :=
   { scheme := if g.ssl then .https else .http
     dial := g.targetResolved
     method := r.method, uri := r.uri
     host := if r.host = [] then hostWithoutPort g.target else r.host
-    header := r.header, body := r.body }
+    header := r.header, body := r.body, close := wantsClose r }
 
 /-! ## one pass of a decoder over the file -/
 
@@ -374,7 +439,7 @@ def scanJson (conf : Hdr) : List Item → List Req × Status
 def scanRaw (conf : Hdr) : List Item → List Req × Status
   | [] => ([], .ok)
   | it :: rest =>
-    match enrich (readRequest it.ent.method it.ent.uri it.hdrs it.ent.body) conf with
+    match enrich (readRequest it.ent.minor it.ent.method it.ent.uri it.hdrs it.ent.body) conf with
     | none => ([], .panic)
     | some r => let (rs, st) := scanRaw conf rest; (r :: rs, st)
 
@@ -393,26 +458,114 @@ def scanAll (f : Format) (conf : Hdr) (items : List Item) : Nat → List Req × 
     | (rs, .ok) => let (rs', st) := scanAll f conf items n; (rs ++ rs', st)
     | other => other
 
-/-! ## connections (per-instance clients, requests shot round-robin one at a time) -/
+/-! ## the provider around the decoder -/
 
-def countTrue : List Bool → Nat
+/-- `preload: true`: LoadAmmo decodes one whole pass before anything is delivered (a decode error delivers nothing),
+then the loaded entries are cycled `passes` times; otherwise the decoder is scanned as the guns consume. -/
+def provide (pre : Bool) (f : Format) (conf : Hdr) (items : List Item) (passes : Nat) : List Req × Status :=
+  if pre then
+    match scanPass f conf items with
+    | (rs, .ok) => ((List.replicate passes rs).flatten, .ok)
+    | (_, st) => ([], st)
+  else scanAll f conf items passes
+
+/-! ## gun plugins (components/phttp/import/import.go) -/
+
+inductive GunKind where
+  | http | http2 | connect
+  deriving DecidableEq, Repr
+
+/-- outcome of netutil.LookupReachable(target) -/
+inductive Lookup where
+  | fails
+  | found (addr : Str)
+  deriving DecidableEq, Repr
+
+/-- guns/http/base.go PreResolveTargetAddr as the factories use it (`resolved, _ := …`: the error is dropped).
+`isResolved` = endpointIsResolved(target): host part is an IP literal. -/
+def preResolve (dnsCache isResolved : Bool) (l : Lookup) (target : Str) : Str :=
+  if !dnsCache then target
+  else if isResolved then target
+  else match l with
+    | .fails => target
+    | .found a => a
+
+/-- `Dialer.DNSCache` after PreResolveTargetAddr: switched off once an address is fixed -/
+def dnsCacheAfter (dnsCache isResolved : Bool) (l : Lookup) : Bool :=
+  dnsCache && !isResolved && l == .fails
+
+/-- the GunConfig a factory hands to its guns, REPAIRED (fixes/C09-connect-gun-host.diff): every plugin keeps the
+configured `target` and stores the pre-resolved address aside -/
+def factory (_k : GunKind) (ssl dnsCache isResolved : Bool) (l : Lookup) (target : Str) : Gun :=
+  { ssl := ssl, target := target, targetResolved := preResolve dnsCache isResolved l target }
+
+/-- the unrepaired tree: the connect plugin overwrote `Target` with the resolved address -/
+def factoryOld (k : GunKind) (ssl dnsCache isResolved : Bool) (l : Lookup) (target : Str) : Gun :=
+  match k with
+  | .connect => { ssl := ssl, target := preResolve dnsCache isResolved l target,
+                  targetResolved := preResolve dnsCache isResolved l target }
+  | _ => factory k ssl dnsCache isResolved l target
+
+/-- NewHTTP2Gun refuses `ssl: false`; the other constructors always succeed -/
+def constructible (k : GunKind) (ssl : Bool) : Bool :=
+  match k with
+  | .http2 => ssl
+  | _ => true
+
+/-! ## connections: one http.Transport per gun (NewBaseGun), an instance shoots one request at a time -/
+
+/-- one request as its gun's transport sees it -/
+structure Flight where
+  /-- index of the gun (instance) that shoots it -/
+  gun : Nat
+  /-- it reaches the target: passes the transport's header validation and the scheme fits the target -/
+  arrived : Bool
+  /-- `req.wantsClose()` -/
+  close : Bool
+  deriving DecidableEq, Repr
+
+/-- state: per gun "an idle kept-alive connection is in the pool", and the number of connections that carried a
+request so far. A request that does not arrive changes nothing; one that arrives reuses the idle connection or dials;
+the connection goes back to the pool iff keep-alives are on and the request did not ask to close. -/
+def connStep (ka : Bool) (st : List Bool × Nat) (f : Flight) : List Bool × Nat :=
+  if !f.arrived then st
+  else (st.1.set f.gun (ka && !f.close), st.2 + (if st.1.getD f.gun false then 0 else 1))
+
+def connRunFrom (ka : Bool) (st : List Bool × Nat) (fs : List Flight) : List Bool × Nat :=
+  fs.foldl (connStep ka) st
+
+/-- connections the target sees for the flights `fs` of `inst` guns, in the order the requests are sent -/
+def connRun (ka : Bool) (inst : Nat) (fs : List Flight) : Nat :=
+  (connRunFrom ka (List.replicate inst false, 0) fs).2
+
+/-- one gun on its own: `idle` = it holds an idle connection -/
+def gunConns (ka : Bool) : Bool → List Flight → Nat
+  | _, [] => 0
+  | idle, f :: fs =>
+    if !f.arrived then gunConns ka idle fs
+    else (if idle then 0 else 1) + gunConns ka (ka && !f.close) fs
+
+def countArrived : List Flight → Nat
   | [] => 0
-  | b :: bs => (if b then 1 else 0) + countTrue bs
+  | f :: fs => (if f.arrived then 1 else 0) + countArrived fs
 
-/-- does gun `g` of `inst` carry at least one of the arrived requests (request j is shot by gun j mod inst) -/
-def gunUsed (inst g : Nat) : Nat → List Bool → Bool
-  | _, [] => false
-  | j, a :: as => (a && j % inst == g) || gunUsed inst g (j + 1) as
+def countClosing : List Flight → Nat
+  | [] => 0
+  | f :: fs => (if f.arrived && f.close then 1 else 0) + countClosing fs
 
-/-- the one-line model: with keep-alive every gun that sends anything uses one connection for all of it;
-without, every request has its own -/
-def connsOf (ka : Bool) (inst : Nat) (arrived : List Bool) : Nat :=
-  if ka then ((List.range inst).filter fun g => gunUsed inst g 0 arrived).length
-  else countTrue arrived
+/-- which gun shoots the j-th acquired ammo: the schedule, cyclic; round-robin when none is given -/
+def gunOf (inst : Nat) (sched : List Nat) (j : Nat) : Nat :=
+  if sched = [] then j % inst else sched.getD (j % sched.length) 0
 
 /-! ## transport + server (net/http; observed, not proved) -/
 
 def validValueByte (c : Nat) : Bool := (decide (32 ≤ c) && c != 127) || c == 9
+
+/-- the Connection values of the shot are in the tie's grammar (single tokens) -/
+def connInGrammar (s : Shot) : Bool :=
+  match hget s.header connKey with
+  | some vs => vs.all simpleTok
+  | none => true
 
 /-- Transport.roundTrip's validateHeaders -/
 def sendable (s : Shot) : Bool :=
@@ -433,3 +586,6 @@ def arrivedHeader (h : Hdr) : Hdr :=
     else some (kv.1, kv.2.map trimHTTP)
 
 end Pandora.Model.C09
+
+/-- (the generated file opens the namespace `Pandora.Go`) -/
+def Pandora.Go.C09.genArea : String := "httpwire"
